@@ -17,7 +17,7 @@ const MODES: [&str; 6] = ["none", "at-sp", "at-sp+8", "last-word-of-stack", "bel
 pub struct Case {
     modes: [usize; 3],
     principal: usize, // 0 dedicated executable region, 1 thread 0's code page, 2 address in no mapping, 3 dedicated non-executable region, 4 executable region at a fixed low address (below the executable), 5 the executable's own text mapping, 6 / 7 a file mapping folded over an inaccessible anonymous page (piece, hole, final piece): principal address in the front piece and the reference into the piece behind the hole / the other way round
-    ctx: usize,       // 0 off, 1 on: rip outside, 2 on: rip inside principal, 3 on: rip == end of principal
+    ctx: usize,       // 0 off, 1 on: rip outside, 2 on: rip inside principal, 3 on: rip == end of principal, 4 on: rip outside and the context's stack pointer 5 bytes above the thread's (not pointer-aligned)
     /// stack sanitising on as well (it must not influence which stacks are kept)
     sanitize: bool,
     /// target flavour: 0 three test threads only; 1 = 22 block threads created first (the test threads sit
@@ -161,13 +161,13 @@ pub fn run_case(t: &mut Target, c: &Case) -> Vec<(String, String)> {
     let blamed = t.p.threads[t.first + 1].tid;
     let mut o = DumpOpts { skip_unref: true, principal: Some(match c.principal { 2 => 0x10, 7 => low as usize + 2 * 4096 + 0x40, _ => low as usize + 0x40 }), blamed: Some(blamed), sanitize: c.sanitize, size_limit: if t.flavour >= 1 { Some(0) } else { None }, ..Default::default() };
     let ctx_rip = match c.ctx {
-        1 => Some(t.p.threads[t.first + 1].page + 0x10),
+        1 | 4 => Some(t.p.threads[t.first + 1].page + 0x10),
         2 => Some(if c.principal == 2 { t.region } else { low + 4 }),
         3 => Some(if c.principal == 2 { t.region } else { high }),
         _ => None,
     };
     if let Some(rip) = ctx_rip {
-        o.crash = Some(CrashSpec { tid: blamed, signo: 11, code: 1, addr: 0, devs: vec![(DIM_RSP, t.sp[1]), (DIM_RIP, rip)] });
+        o.crash = Some(CrashSpec { tid: blamed, signo: 11, code: 1, addr: 0, devs: vec![(DIM_RSP, t.sp[1] + if c.ctx == 4 { 5 } else { 0 }), (DIM_RIP, rip)] });
     }
     // expectations from the target's real memory
     let mut exp = [false; 3];
@@ -179,7 +179,9 @@ pub fn run_case(t: &mut Target, c: &Case) -> Vec<(String, String)> {
         let base = t.sp[i] & !0xfff;
         let mem = t.p.read(base, (hi - base) as usize);
         let ip_inside = if i == 1 && ctx_rip.is_some() { let r = ctx_rip.unwrap(); r >= low && r < high } else { let pg = t.p.threads[t.first + i].page; pg >= low && pg < high };
-        let mut refd = expected_reference(&mem, base, t.sp[i], low, high);
+        // (the crash thread's stack is judged from the stack pointer of the crash context)
+        let sp_i = if i == 1 && c.ctx == 4 { t.sp[1] + 5 } else { t.sp[i] };
+        let mut refd = expected_reference(&mem, base, sp_i, low, high);
         if t.flavour >= 1 && !(i == 1 && ctx_rip.is_some()) {
             // size-limited thread (list position >= 20, not the crash thread): the writer keeps the 2 KiB
             // chunk that holds sp; a reference inside it is certain, one beyond it is not judged
@@ -251,7 +253,7 @@ fn cases(thorough: bool) -> Vec<Case> {
     }
     for t in tuples {
         for principal in 0..8 {
-            for ctx in 0..4 {
+            for ctx in 0..5 {
                 if !thorough && ctx >= 2 && t.iter().filter(|x| **x != 0).count() > 1 {
                     continue;
                 }
